@@ -261,3 +261,25 @@ EXTRA9 = {
 for _pid, _x in EXTRA9.items():
     if _pid in CLAIMED:
         CLAIMED[_pid]["text"] += _x
+
+EXTRA10 = {
+ "C01": " Round 10: a condition is reported failed only by the compare - the native write handlers answer with the backend's response (R12).",
+ "C03": " Round 10: in a reading scan every record that passed the revision filter becomes the worker's previous record (R12).",
+ "C05": " Round 10: events are compared by their own revision (R18); an answer of the event cache is one snapshot (R19).",
+ "C06": " Round 10: compaction runs only where the repair queue is (C18-R1 into R3); C05-R4, R17..R19 into R7.",
+ "C07": " Round 10: the failed-delete marker, compared with user keys, is a user key (R11).",
+ "C09": " Round 10: formatting an error into a new one without wrapping loses its class (error-flow analysis, R6/R8).",
+ "C10": " Round 10: compaction borders are sorted as encoded keys (C07-R9 into R5).",
+ "C11": " Round 10: conditions are read with Get on the batch's own transaction (R1); the in-process engine never stores nil for an empty value (R18).",
+ "C12": " Round 10: C17-R10/R11 (the emulated TTL clock) into R6.",
+ "C13": " Round 10: a scan that stops on ctx.Done() stops with an error (R8).",
+ "C14": " Round 10: C11-R1's own-transaction read into R5.",
+ "C15": " Round 10: the start version is parsed from a Describe() made in the same call (R1); adapters report a failed oracle read (C11-R11 into R5).",
+ "C16": " Round 10: events rebuilt from events keep all fields (R11); C05-R18 into R10.",
+ "C17": " Round 10: logged compaction marks are never exchanged (R10); the age test is not rounded (R11).",
+ "C19": " Round 10: no struct with a lock by value (R11); the fresh-object exemption ends at publication through atomic.Value or a channel (R4).",
+ "C20": " Round 10: channels are closed once (R12); counter values are never derived from a subtraction (R13).",
+}
+for _pid, _x in EXTRA10.items():
+    if _pid in CLAIMED:
+        CLAIMED[_pid]["text"] += _x
